@@ -78,6 +78,12 @@ def wholerun_record(ctx, res, rec):
         if int(rec["row"]["Days Emitting"]) != int(rec["base"]["Days Emitting"]):
             ctx.violate("C03:nonrepairable-affected", "non-repairable emission: days emitting differ from baseline", inp)
     check(ctx, "wholerun", rec["repairable"], rec["start"], rec["nrd"], r, b, inp)
+    if rec["nrd"] >= 1 and rec["start"] < -rec["nrd"]:
+        # outside the domain of the unit statement (the generator of THIS configuration cannot produce such a
+        # start), but in a whole run it is a leak that has already lived longer than the configured maximum
+        ctx.violate("C03:bounded:began-before-the-earliest-possible-start",
+                    "an emission of a whole run began more than the configured maximum duration before the period "
+                    "and is on record in the period (days before the period %d > duration %d)" % (-rec["start"], rec["nrd"]), inp)
     # the duration bound is judged for every program (the no-LDAR one included) of every simulation number,
     # against the duration configured for THIS run
     ctx.count("wholerun_bounded-duration_evaluated:%s:sim%s" % ("baseline" if rec["prog"] == res.cfg["baseline"] else "program",
